@@ -61,6 +61,44 @@ theorem step_fallback (env : Env) (l : Learner) (stats : Stats) (ev : Ev) (o : S
     simp only [Learner.step, Learner.succeeded, Learner.failed, Learner.abandoned, Option.some.injEq] at h <;>
     subst h <;> simp [Learner.holdsHandle]
 
+/-- A call that reports no mutation leaves the message exactly as it was. -/
+theorem step_unmutated (env : Env) (l : Learner) (stats : Stats) (ev : Ev) (o : StepOut)
+    (h : l.step env stats ev = some o) (hm : o.mutated = false) : o.stats = stats := by
+  cases l <;> cases ev <;>
+    simp only [Learner.step, Learner.succeeded, Learner.failed, Learner.abandoned,
+      Option.some.injEq] at h <;>
+    (try (subst h; simp at hm ⊢))
+  all_goals
+    split at h
+    · split at h
+      · simp at h
+      · simp only [Option.some.injEq] at h; subst h; simp at hm
+    · simp only [Option.some.injEq] at h; subst h; simp at hm
+
+/-- Without interference, a path that reports no mutation ends with the message it started with. -/
+theorem runPath_unmutated (env : Env) (evs : List Ev) :
+    ∀ (t : Trace) (stats : Stats), (runPath env (fun _ s => s) t stats evs).1.mutated = false →
+      (runPath env (fun _ s => s) t stats evs).1.panicked = false →
+      t.mutated = false ∧ (runPath env (fun _ s => s) t stats evs).2 = stats := by
+  induction evs with
+  | nil => intro t stats hm _; simpa [runPath] using hm
+  | cons ev evs ih =>
+    intro t stats hm hp
+    unfold runPath at hm hp ⊢
+    cases hc : t.cur with
+    | none => simpa [hc] using hm
+    | some l =>
+      simp only [hc] at hm hp ⊢
+      cases hs : l.step env stats ev with
+      | none => simp [hs] at hp
+      | some o =>
+        simp only [hs] at hm hp ⊢
+        have := ih _ o.stats hm hp
+        simp only [Bool.or_eq_false_iff] at this
+        refine ⟨this.1.1, ?_⟩
+        rw [this.2]
+        exact step_unmutated env l stats ev o hs this.1.2
+
 /-- Invariant of a trace of a feedback-driven request. -/
 def Good (t : Trace) : Prop :=
   match t.cur with
